@@ -8,6 +8,6 @@ git apply "$patch" || { echo "patch does not apply"; exit 2; }
 trap 'git -C /repo checkout -- . ; git -C /repo clean -fdq' EXIT
 for c in "$@"; do
 	echo "=== $c on $(basename $(dirname $patch))"
-	(cd /verif && VERIF_DIR_REPLAYS=/tmp ./run.sh $c ${TIER:-quick} 2>&1 | grep -v "^  path" | cut -c1-300 | tail -${LINES_OUT:-6})
+	(cd /verif && VERIF_EVIDENCE_DIR=/tmp/seed-evidence ./run.sh $c ${TIER:-quick} 2>&1 | grep -v "^  path" | cut -c1-300 | tail -${LINES_OUT:-6})
 	echo "exit=$?"
 done
